@@ -109,4 +109,82 @@ Section Props.
     - intros s E Hs. rewrite E in Eb. destruct s; [congruence|exact Eb].
     - intros s E Hs. rewrite E in Esv. destruct s; [congruence|exact Esv].
   Qed.
+  (* C19: a manipulation that names an algorithm puts exactly that identifier, without parameters, into the field it names
+     (with the repaired error handling a value that is no object identifier never gets this far) *)
+  Lemma manip_oid_given s r : fx_manip_err mfx = true -> s <> [] -> manip_oid mfx s = Some r ->
+    exists zs ns, oid_from_string s = Some zs /\ arcs_to_N zs = Some ns /\ r = Some (mkAlg ns None).
+  Proof.
+    intros Hf Hs H. unfold manip_oid in H. destruct s as [|b bs]; [congruence|].
+    destruct (oid_from_string (b :: bs)) as [zs|] eqn:Eo.
+    - destruct (arcs_to_N zs) as [ns|] eqn:En; [|discriminate H].
+      inversion H; subst. exists zs, ns. auto.
+    - rewrite Hf in H. discriminate H.
+  Qed.
+
+  Theorem manipulated_oids_exact c o iss t : fx_manip_err mfx = true -> gen c o iss = Some t ->
+    (forall s, m_tbs_sigalg (cc_manip c) = s -> s <> [] ->
+       exists zs ns, oid_from_string s = Some zs /\ arcs_to_N zs = Some ns /\ t_inner t = mkAlg ns None) /\
+    (forall s, m_outer_sigalg (cc_manip c) = s -> s <> [] ->
+       exists zs ns, oid_from_string s = Some zs /\ arcs_to_N zs = Some ns /\ t_outer t = mkAlg ns None) /\
+    (forall s, m_tbs_pkalg (cc_manip c) = s -> s <> [] ->
+       exists zs ns, oid_from_string s = Some zs /\ arcs_to_N zs = Some ns /\ sp_alg (t_spki t) = mkAlg ns None) /\
+    (forall v, m_version (cc_manip c) = Some v -> t_version t = v).
+  Proof.
+    unfold gen_tcert. intros Hf H.
+    destruct ((cc_serial c <? 0)%Z || (9223372036854775807 <? cc_serial c)%Z) eqn:Esn; [discriminate|].
+    destruct (parse_rdn (cc_subject c)) as [subj|] eqn:Es; [|discriminate].
+    destruct (to_time_struct _ _ _) as [val|] eqn:Ev; [|discriminate].
+    destruct (sig_oid _) as [[so rsa]|] eqn:Eg; [|discriminate].
+    destruct (match m_tbs_pk (cc_manip c) with [] => _ | _ => _ end) as [bits|] eqn:Eb; [|discriminate].
+    destruct (uid_field fx (cc_issuer_uid c)) as [iuid|] eqn:Ui; [|discriminate].
+    destruct (uid_field fx (cc_subject_uid c)) as [suid|] eqn:Us; [|discriminate].
+    destruct (manip_oid mfx (m_tbs_sigalg (cc_manip c))) as [inner|] eqn:Ei; [|discriminate].
+    destruct (manip_oid mfx (m_outer_sigalg (cc_manip c))) as [outer|] eqn:Eo; [|discriminate].
+    destruct (manip_oid mfx (m_tbs_pkalg (cc_manip c))) as [pkalg|] eqn:Ep; [|discriminate].
+    destruct (match m_sigvalue (cc_manip c) with [] => _ | _ => _ end) as [sigv|] eqn:Esv; [|discriminate].
+    destruct (map_opt _ (cc_exts c)) as [exts|] eqn:Ex; [|discriminate].
+    match goal with H : (if ?X then None else _) = Some _ |- _ => destruct X eqn:?; [discriminate H|] end.
+    inversion H; subst; clear H. cbn [t_version t_inner t_outer t_spki sp_alg].
+    split; [|split; [|split]].
+    - intros s E Hs. rewrite E in Ei. destruct (manip_oid_given s inner Hf Hs Ei) as (zs & ns & A & B & C).
+      exists zs, ns. subst inner. auto.
+    - intros s E Hs. rewrite E in Eo. destruct (manip_oid_given s outer Hf Hs Eo) as (zs & ns & A & B & C).
+      exists zs, ns. subst outer. auto.
+    - intros s E Hs. rewrite E in Ep. destruct (manip_oid_given s pkalg Hf Hs Ep) as (zs & ns & A & B & C).
+      exists zs, ns. subst pkalg. auto.
+    - intros v E. rewrite E. reflexivity.
+  Qed.
+  (* C19: outer manipulations leave the signed bytes untouched - the to-be-signed part of the certificate is the same
+     whatever the outer signature algorithm and the signature value are set to *)
+  Definition with_outer (c : cert_cfg) (x y : bytes) : cert_cfg :=
+    mkCertCfg (cc_subject c) (cc_serial c) (cc_issuer_uid c) (cc_subject_uid c) (cc_validity c)
+              (cc_keyalg c) (cc_sigalg c) (cc_exts c)
+              (mkManip (m_version (cc_manip c)) x y (m_tbs_sigalg (cc_manip c)) (m_tbs_pkalg (cc_manip c)) (m_tbs_pk (cc_manip c))).
+
+  Theorem outer_manipulations_leave_tbs c x y o iss t t' :
+    gen c o iss = Some t -> gen (with_outer c x y) o iss = Some t' -> enc_tbs t = enc_tbs t'.
+  Proof.
+    unfold gen_tcert. intros H H'.
+    cbn [with_outer cc_subject cc_serial cc_issuer_uid cc_subject_uid cc_validity cc_keyalg cc_sigalg cc_exts cc_manip
+         m_version m_outer_sigalg m_sigvalue m_tbs_sigalg m_tbs_pkalg m_tbs_pk] in H'.
+    unfold effective_sigalg in *.
+    cbn [with_outer cc_subject cc_serial cc_issuer_uid cc_subject_uid cc_validity cc_keyalg cc_sigalg cc_exts cc_manip
+         m_version m_outer_sigalg m_sigvalue m_tbs_sigalg m_tbs_pkalg m_tbs_pk] in H'.
+    destruct ((cc_serial c <? 0)%Z || (9223372036854775807 <? cc_serial c)%Z) eqn:Esn; [discriminate|].
+    destruct (parse_rdn (cc_subject c)) as [subj|] eqn:Es; [|discriminate].
+    destruct (to_time_struct _ _ _) as [val|] eqn:Ev; [|discriminate].
+    destruct (sig_oid _) as [[so rsa]|] eqn:Eg; [|discriminate].
+    destruct (match m_tbs_pk (cc_manip c) with [] => _ | _ => _ end) as [bits|] eqn:Eb; [|discriminate].
+    destruct (uid_field fx (cc_issuer_uid c)) as [iuid|] eqn:Ui; [|discriminate].
+    destruct (uid_field fx (cc_subject_uid c)) as [suid|] eqn:Us; [|discriminate].
+    destruct (manip_oid mfx (m_tbs_sigalg (cc_manip c))) as [inner|] eqn:Ei; [|discriminate].
+    destruct (manip_oid mfx (m_outer_sigalg (cc_manip c))) as [outer|] eqn:Eo; [|discriminate].
+    destruct (manip_oid mfx x) as [outer'|] eqn:Eo'; [|discriminate].
+    destruct (manip_oid mfx (m_tbs_pkalg (cc_manip c))) as [pkalg|] eqn:Ep; [|discriminate].
+    destruct (match m_sigvalue (cc_manip c) with [] => _ | _ => _ end) as [sigv|] eqn:Esv; [|discriminate].
+    destruct (match y with [] => _ | _ => _ end) as [sigv'|] eqn:Esv'; [|discriminate].
+    destruct (map_opt _ (cc_exts c)) as [exts|] eqn:Ex; [|discriminate].
+    match goal with H : (if ?X then None else _) = Some _ |- _ => destruct X eqn:?; [discriminate H|] end.
+    inversion H; subst; clear H. inversion H'; subst; clear H'. reflexivity.
+  Qed.
 End Props.
